@@ -223,6 +223,13 @@ func (env *Env) tr(x Expr) TV {
 		case "Inf":
 			return TV{e.f64Lit(math.Inf(1)), tyF64}
 		}
+		if g := e.P.ghosts[x.Name]; g != nil {
+			h := e.ghostHeap(g)
+			if g.Type == "bool" {
+				return TV{env.heap(h), tyBool}
+			}
+			return TV{env.heap(h), tyInt}
+		}
 		// nullary spec function / constant
 		if sf := e.P.lookupSpec(x.Name, env.pkg); sf != nil && len(sf.Params) == 0 {
 			return env.callSpec(sf, nil)
@@ -478,6 +485,12 @@ func (env *Env) indexTV(b, i TV) TV {
 			h := env.heap(e.elemHeap(a.Elem()))
 			return TV{app("select", app("select", h, b.T), i.T), a.Elem()}
 		}
+	case *types.Basic:
+		if u.Info()&types.IsString != 0 {
+			// s[i]: the i-th byte of a string
+			e.decl("fn:str_at", "(declare-fun str_at (Str Int) Int)")
+			return TV{app("str_at", b.T, i.T), types.Typ[types.Uint8]}
+		}
 	}
 	specFail("cannot index %s", b.Ty)
 	return TV{}
@@ -649,6 +662,18 @@ func (e *Enc) declaredSym(tok string) bool {
 		}
 	}
 	return e.declSyms[tok]
+}
+
+func (e *Enc) ghostHeap(g *Ghost) string {
+	name := "ghost_" + g.Name
+	if _, ok := e.heapSort[name]; !ok {
+		if g.Type == "bool" {
+			e.heapSort[name] = "Bool"
+		} else {
+			e.heapSort[name] = "Int"
+		}
+	}
+	return name
 }
 
 func tdiv(a, b Term) Term {
